@@ -8,6 +8,7 @@ import (
 	"path/filepath"
 	"sort"
 	"strings"
+	"sync"
 	"sync/atomic"
 
 	"github.com/dgraph-io/badger/v4/verifhook"
@@ -465,6 +466,128 @@ func c07Case2(sp crashSpec, base string, id int) (more bool, what string) {
 	return false, fmt.Sprintf("harness: recover-child failed (exit %d): %s", ex2, string(o))
 }
 
+// c07Epilogue: what a node would go on to do after the letter: finalize the version being built (or
+// commit a candidate first), then build and finalize one more version.
+func c07Epilogue(backend string, h []L) []L {
+	var out []L
+	for step := 0; step < 4; step++ {
+		e, w := runHistory(backend, append(append([]L{}, h...), out...), false)
+		if e == nil || w != "" {
+			if e != nil {
+				e.ndb.Close()
+			}
+			return out
+		}
+		ls := nextLetters(e, 2, e.ref.last+2)
+		e.ndb.Close()
+		var pick *L
+		for i := range ls {
+			if ls[i].Op == "finalize" {
+				pick = &ls[i]
+				break
+			}
+		}
+		if pick == nil {
+			for i := range ls {
+				if ls[i].Op == "commit" && ls[i].Type == "" && ls[i].Batch == "add" {
+					pick = &ls[i]
+					break
+				}
+			}
+		}
+		if pick == nil {
+			return out
+		}
+		out = append(out, *pick)
+	}
+	return out
+}
+
+func c07StateSpace(r *ev.Run, base string) {
+	depth := 4
+	maxVersion := uint64(2)
+	if r.Thorough() {
+		depth = 6
+	}
+	if s := os.Getenv("VERIF_C07_DEPTH"); s != "" {
+		fmt.Sscan(s, &depth)
+	}
+	var pairs, cases, died atomic.Int64
+	for _, backend := range []string{"badger", "pathbadger"} {
+		frontier := [][]L{{}}
+		seen := map[string]bool{}
+		var mu sync.Mutex
+		for level := 0; level < depth && len(frontier) > 0; level++ {
+			var next [][]L
+			ev.ParallelRange(len(frontier), r.Seed, func(fi int) {
+				if r.Expired() {
+					r.Cap("deadline")
+					return
+				}
+				h := frontier[fi]
+				e, what := runHistory(backend, h, false)
+				if e == nil || what != "" {
+					r.HarnessError("state-space phase: replay failed: %s [%s]", what, historyString(h))
+					return
+				}
+				letters := nextLetters(e, 2, maxVersion)
+				e.ndb.Close()
+				for li, l := range letters {
+					nh := append(append([]L{}, h...), l)
+					e2, what := runHistory(backend, nh, false)
+					if e2 == nil || what != "" {
+						if e2 != nil {
+							e2.ndb.Close()
+						}
+						continue // C06's business
+					}
+					k := stateKey(e2)
+					e2.ndb.Close()
+					mu.Lock()
+					fresh := !seen[k]
+					if fresh {
+						seen[k] = true
+						next = append(next, nh)
+					}
+					mu.Unlock()
+					if !fresh {
+						continue // the same state was reached by this letter from an equivalent history: crash cases are the same
+					}
+					pairs.Add(1)
+					full := append(append([]L{}, nh...), c07Epilogue(backend, nh)...)
+					for kk := 1; kk <= 64; kk++ {
+						sp := crashSpec{Backend: backend, History: full, Pos: len(h), K: kk}
+						ex, what := c07Case(sp, base, 1000000+fi*1000+li*70+kk)
+						if ex == 0 && what == "" {
+							break // the letter has fewer than kk durable writes
+						}
+						cases.Add(1)
+						r.Add("evaluations", 1)
+						if ex == 77 {
+							died.Add(1)
+						}
+						if what != "" {
+							if strings.HasPrefix(what, "harness:") {
+								r.HarnessError("%s [%s pos %d k %d]", what, historyString(full), sp.Pos, kk)
+								break
+							}
+							r.Violate(ev.Violation{Engine: "dbmc", Key: fmt.Sprintf("c07 %s [%s] crash in %s after durable write %d", backend, historyString(full), l, kk) + c07Class(what),
+								What:     fmt.Sprintf("%s, history [%s], process killed inside %s right after its durable write #%d: %s", backend, historyString(full), l, kk, what),
+								Artefact: c07Artefact{Spec: sp}})
+						}
+					}
+				}
+			})
+			frontier = next
+		}
+		r.Set("state_space_states_"+backend, len(seen))
+	}
+	r.Set("state_space_letter_depth", depth)
+	r.Set("state_space_state_letter_pairs", int(pairs.Load()))
+	r.Set("state_space_crash_cases", int(cases.Load()))
+	r.Set("state_space_rule", "state-space phase: breadth-first search over database histories (at most two competing candidates per version, IO roots, commit one version ahead, finalize of any candidate with or without the IO root, prune) to the stated letter depth, deduplicated by the complete physical dump; for every transition into a new state the letter is interrupted right after each of its durable writes in a child process on an on-disk database, and the parent recovers, retries, and continues with finalizing the version and building one more (read-back after every letter)")
+}
+
 func runC07(r *ev.Run) {
 	if r.Replay != "" {
 		v, err := ev.LoadReplay(r.Replay)
@@ -600,6 +723,10 @@ func runC07(r *ev.Run) {
 			nontrivial.Add(1)
 		}
 	})
+	// 3b. state-space phase: instead of curated histories, every distinct database state reachable within a
+	// letter depth (the C06 search: competing commits, IO roots, commit-ahead, finalize of any candidate,
+	// prune), every applicable next letter, every durable-write boundary of that letter.
+	c07StateSpace(r, base)
 	// 4. the crash inside badger's memtable-WAL retirement, reproduced deterministically
 	for _, be := range []string{"badger", "pathbadger"} {
 		what := c07WALRetire(be, base)
